@@ -175,6 +175,9 @@ FILE_TEXTS = [      # valid modules whose line structure matters
     'import sys\n\nif len(sys.argv) < 2:\n    print("usage: prog \\\n[options] file")\n    sys.exit(2)\nprint(sys.argv[1])\n',
     'import os\nimport sys\n\n\ndef usage():\n    return "first line \\\nsecond line" + \\\n        "third"\n\n\nprint(usage(), sys.argv)\n',
     '"""\\\nDocstring that starts on the second line.\n"""\nimport os\nimport sys\n\nprint(sys.argv)\n',
+    # round 5: backslash continuation onto a blank last line / after the docstring line
+    "import sys\nprint(sys.argv)\nx = 1 \\\n   \n",
+    '"""doc"""\\\n\nprint(os)\n',
 ]
 
 
@@ -209,3 +212,212 @@ def budget_family(big: bool):
                                        % (i, i + 10, i) for i in range(130))))
         out.append(("unused131", "def f(q):\n    v0 = q + 1\n" + "".join("    v%d = v%d + 1\n" % (i + 1, i) for i in range(130)) + "    return q\n\n\nprint(f(3))\n"))
     return out
+
+
+# ---- round 5: type confusion between constants (seed C04-d), backslash continuations onto blank lines -------------
+
+CMP_OPS = ["==", "!=", "<", "<=", ">", ">="]
+HETERO_CONSTANTS = {           # one literal per constant type a rule may collect as a "bound"
+    "int": "3", "float": "2.5", "bool": "True", "str": "'auto'", "bytes": "b'x'", "none": "None", "tuple": "(1, 2)",
+    "complex": "1j",
+}
+HETERO_CONSTANTS_MORE = {      # thorough tier: evaluated constants (core.literal_value computes them), containers, specials
+    "negint": "-1", "strexpr": "'a' * 2", "list": "[1]", "ellipsis": "...", "nan": "float('nan')", "bigint": "10 ** 30",
+    "emptystr": "''", "set": "{1}",
+}
+HETERO_OPERANDS = ["n", "o.size", "d['k']", "f(n)"]
+HETERO_CONTEXTS = {
+    "if": "def g(n, o, d, f):\n    if {E}:\n        return n\n    return o\n\n\nprint(g)\n",
+    "while": "def g(n, o, d, f):\n    while {E}:\n        n = f(n)\n    return n\n\n\nprint(g)\n",
+    "return": "def g(n, o, d, f):\n    return {E}\n\n\nprint(g)\n",
+    "comp": "def g(o, d, f):\n    return [n for n in range(10) if {E}]\n\n\nprint(g)\n",
+}
+HETERO_CONTEXTS_MORE = {
+    "assert": "def g(n, o, d, f):\n    assert {E}, n\n    return n\n\n\nprint(g)\n",
+    "ifexp": "def g(n, o, d, f):\n    return n if {E} else o\n\n\nprint(g)\n",
+    "not": "def g(n, o, d, f):\n    if not ({E}):\n        return n\n    return o\n\n\nprint(g)\n",
+    "module-if": "import sys\n\nn = len(sys.argv)\nif {E}:\n    print(n)\n",
+    "fragment": "    if {E}:\n        return n\n    return o\n",
+}
+
+
+HETERO_CORE: set = set()     # filled by hetero_bound_family: the sources of the core third + the witnesses
+
+
+def hetero_bound_family(tier: str = "quick"):
+    """comparison pairs with heterogeneous constants: ONE operand compared with constants of two (possibly different)
+    types in one and/or: operand x {6 comparison operators}^2 x constant types pairwise x {and, or} x {if / while test,
+    return value, comprehension condition}.  A rule that collects the constants as bounds of the operand and then orders
+    them (symbolic_math.simplify_boolean_expressions, simplify_constrained_range) must not assume they are comparable.
+    -> [(tag, source)].  Quick tier: the full operator^2 x type^2 square with and/or, context, operand and the side of
+    the constant rotating (every value of every axis occurs with every type pair); thorough tier: the full product
+    over and/or x context, plus evaluated / container constants and more contexts on a rotating basis."""
+    out = []
+    consts = dict(HETERO_CONSTANTS)
+    k = 0
+    for (t1, c1) in consts.items():
+        for (t2, c2) in consts.items():
+            for op1 in CMP_OPS:
+                for op2 in CMP_OPS:
+                    k += 1
+                    if tier == "quick":
+                        axes = [(("and", "or")[k % 2], list(HETERO_CONTEXTS)[(k // 2) % 4])]
+                    else:
+                        axes = [(b, c) for b in ("and", "or") for c in HETERO_CONTEXTS]
+                    for j, (bop, ctx) in enumerate(axes):
+                        operand = "n" if ctx == "comp" else HETERO_OPERANDS[(k // 8 + j) % 4]
+                        first = f"{operand} {op1} {c1}"
+                        # the constant on the left in every third case (the rules normalise `3 < n` to `n > 3`)
+                        second = f"{c2} {op2} {operand}" if (k + j) % 3 == 0 else f"{operand} {op2} {c2}"
+                        expr = f"{first} {bop} {second}"
+                        out.append((f"{t1}{op1}/{t2}{op2}/{bop}/{ctx}", HETERO_CONTEXTS[ctx].replace("{E}", expr)))
+                        # the "core" third of the square: per type pair 12 operator pairs (i, i + r), r rotating with the
+                        # type pair, so that every operator occurs on both sides with every type pair
+                        ti = list(consts).index(t1) * len(consts) + list(consts).index(t2)
+                        if (CMP_OPS.index(op2) - CMP_OPS.index(op1)) % 6 in (ti % 6, (ti + 3) % 6):
+                            HETERO_CORE.add(out[-1][1])
+    if tier != "quick":
+        more = dict(HETERO_CONSTANTS) | HETERO_CONSTANTS_MORE
+        ctxs = dict(HETERO_CONTEXTS) | HETERO_CONTEXTS_MORE
+        k = 0
+        for (t1, c1) in more.items():
+            for (t2, c2) in more.items():
+                if t1 in HETERO_CONSTANTS and t2 in HETERO_CONSTANTS:
+                    continue
+                for op1 in CMP_OPS:
+                    for op2 in CMP_OPS:
+                        k += 1
+                        bop, ctx = ("and", "or")[k % 2], list(ctxs)[(k // 2) % len(ctxs)]
+                        expr = f"n {op1} {c1} {bop} n {op2} {c2}"
+                        out.append((f"{t1}{op1}/{t2}{op2}/{bop}/{ctx}", ctxs[ctx].replace("{E}", expr)))
+    # three bounds, nested and/or, chained comparisons, the minimal witnesses of seed C04-d (run first)
+    head = [("witness/or", "if n == 'auto' or n > 0:\n    print(n)\n"),
+            ("witness/and", "if size != 'line' and size >= 0:\n    print(size)\n"),
+            ("witness/while", "while v < b'x' or v < 10:\n    v = step(v)\n"),
+            ("three", "if n > 0 and n != 'a' and n < 2.5:\n    print(n)\n"),
+            ("nested", "if n > 0 and (n < 'z' and n >= None):\n    print(n)\n"),
+            ("chain", "if 0 < n < 'z' or n == b'q':\n    print(n)\n"),
+            ("extra-context/assert", HETERO_CONTEXTS_MORE["assert"].replace("{E}", "n == 'auto' or n > 0")),
+            ("extra-context/ifexp", HETERO_CONTEXTS_MORE["ifexp"].replace("{E}", "n >= b'x' and n <= 3")),
+            ("extra-context/not", HETERO_CONTEXTS_MORE["not"].replace("{E}", "n != None or n < 'a'")),
+            ("extra-context/module-if", HETERO_CONTEXTS_MORE["module-if"].replace("{E}", "n == 'auto' or n > 0")),
+            ("extra-context/fragment", HETERO_CONTEXTS_MORE["fragment"].replace("{E}", "n < (1, 2) or n < 2.5"))]
+    HETERO_CORE.update(s for _, s in head)
+    out = head + out
+    seen, res = set(), []
+    for tag, s in out:
+        if s not in seen and valid(s):
+            seen.add(s)
+            res.append((tag, s))
+    return res
+
+
+SYMBOLIC_MATH_RULES = ["symbolic_math.simplify_boolean_expressions", "symbolic_math.simplify_boolean_expressions_symmath",
+                       "symbolic_math.simplify_constrained_range", "symbolic_math.simplify_math_iterators"]
+
+
+def type_confusion_family():
+    """constants of DIFFERENT types where a rule evaluates, hashes, sorts or compares constants: core.literal_value
+    consumers (comparison folding, `in` tests, dead branches), set / dict display de-duplication, overused_constant
+    (1 == 1.0 == True hash alike), membership chains merged into one collection, aggregate / range bounds of
+    simplify_math_iterators and simplify_constrained_range, keys of sort_imports (relative / absolute / aliased)."""
+    vals = ["1", "1.0", "True", "'1'", "b'1'", "None", "(1,)", "1j"]
+    out = []
+    for a in vals:
+        for b in vals:
+            if a == b:
+                continue
+            out += [
+                f"import sys\n\nx = sys.argv\nprint({{{a}, {b}, {a}}}, {{{a}: 1, {b}: 2, {a}: 3}})\n",
+                f"import sys\n\nx = sys.argv\nif x == {a} or x == {b} or x == {a}:\n    print(x)\n",
+                f"import sys\n\nx = sys.argv\nprint(x in ({a}, {b}), x in [{b}, {a}, {b}], {a} in ({b},), {a} < {b})\n",
+                f"import sys\n\nx = sys.argv\nprint(sorted([{a}, {b}]), max({a}, {b}), min([{b}, {a}]), sum([{a}, {b}]))\n",
+                f"print(sum(z for z in range({a}, {b})), [z for z in range(10) if z > {a} and z < {b}])\n",
+                f"print(sum({a} for _ in range(3)) + sum([{b} for _ in range(2)]), sum(z * {a} for z in range({b})))\n",
+                f"import sys\n\nx = sys.argv\nprint({a} < x <= {b}, {a} if {b} else x, {a} and {b}, not {a} or {b})\n",
+                f"import sys\n\nx = sys.argv\nif isinstance(x, int) or isinstance(x, str) or x is {a} or x is {b}:\n    print(x)\n",
+            ]
+    # the same value under three types, each repeated often enough for abstractions.overused_constant
+    for trio in (("1", "1.0", "True"), ("0", "0.0", "False"), ("'abcdefghijklmnopqrstuvwx'", "b'abcdefghijklmnopqrstuvwx'", "None"),
+                 ("100000000000000000000", "1e20", "100000000000000000000.0"), ("(1, 'a')", "(1.0, 'a')", "(True, 'a')")):
+        rep = ", ".join(", ".join(trio) for _ in range(6))
+        out.append(f"def f():\n    return [{rep}]\n\n\ndef g():\n    return ({rep})\n\n\nprint(f(), g())\n")
+        out.append(f"v = [{rep}]\nw = {{{rep}}}\nprint(v, w)\n")
+    imports = ["import b", "import a.c as b", "from . import b", "from .. import b", "from .b import b", "from b import b",
+               "from b import b as B", "import B", "import _b", "from __future__ import annotations", "from b import *",
+               "import b, a"]
+    for i in imports:
+        for j in imports:
+            if i != j and not ("__future__" in j):
+                out.append(f"{i}\n{j}\n\nprint(b)\n")
+    return [s for s in dict.fromkeys(out) if valid(s)]
+
+
+TYPE_CONFUSION_RULES = ["fixes.remove_duplicate_set_elts", "fixes.remove_duplicate_dict_keys", "fixes.sort_imports",
+                        "fixes.fix_duplicate_imports", "abstractions.overused_constant",
+                        "fixes.replace_collection_add_update_with_collection_literal"] + SYMBOLIC_MATH_RULES
+
+CONT_HEADS = [           # (tag, physical first line WITHOUT the backslash, is it a scope-opening head?)
+    ("docstring", '"""doc"""'), ("future", "from __future__ import annotations"), ("import", "import os"),
+    ("import-unused", "import unused_module"), ("assign", "x = 1"), ("call", "print(1)"), ("from-import", "from os import path"),
+    ("semicolon", "x = 1;"), ("two-imports", "import os, sys"),
+]
+CONT_GAPS = [            # what follows the backslash + line break: blank line(s), whitespace-only line, comment, second continuation
+    ("blank", "\n"), ("blanks3", "\n\n\n"), ("spaces", "   \n"), ("comment", "# comment\n"), ("indented-comment", "    # comment\n"),
+    ("double", "   \\\n\n"), ("formfeed", "\x0c\n"),
+]
+CONT_TAILS = [           # the rest of the module: what makes rules insert / delete / move whole lines
+    ("undefined", "print(os, np.pi)\n"), ("nothing", ""), ("unused", "import sys\ny = 2\n"), ("plain", "print(1)\n"),
+    ("duplicate-import", "import os\nimport os\nprint(os)\n"), ("def", "def f():\n    import os\n    return os, sys\n\n\nprint(f())\n"),
+    ("comment", "# trailing comment\n"),
+]
+
+
+def continuation_family():
+    """backslash continuation onto a blank / whitespace-only / comment line (the logical line ends one or more PHYSICAL
+    lines after the statement's end_lineno) x {after a docstring, after a __future__ import, after an import or a
+    plain statement, as last statement of a block, at the end of the file with and without a final line break}
+    x tails that make rules insert (add_missing_imports), delete (unused imports / names) or move whole lines.
+    -> [(tag, source)]"""
+    out = [("witness/eof", "x = 1 \\\n   "), ("witness/docstring", '"""doc"""\\\n\nprint(os)\n')]
+    for ht, head in CONT_HEADS:
+        for gt, gap in CONT_GAPS:
+            for tt, tail in CONT_TAILS:
+                for sp in (" ", ""):
+                    if sp == "" and gt not in ("blank", "spaces"):
+                        continue
+                    out.append((f"{ht}/{gt}/{tt}{'' if sp else '/tight'}", head + sp + "\\\n" + gap + tail))
+            # at the very end of the file: the continuation line is the last line, without a line break
+            out.append((f"{ht}/eof-spaces", head + " \\\n   "))
+            out.append((f"{ht}/eof-after-code", "import os\nprint(os)\n" + head.replace("import os", "import re") + " \\\n   "))
+    # last statement of a block / between decorated definitions / inside a class
+    for gt, gap in CONT_GAPS:
+        out += [
+            (f"block/def/{gt}", "def f(a):\n    y = a \\\n" + gap + "    return y, np.pi\n\n\nprint(f(1))\n"),
+            (f"block/def-last/{gt}", "def f(a):\n    return a \\\n" + gap + "\n\nprint(f(1), np.pi)\n"),
+            (f"block/if/{gt}", "import sys\n\nif sys.argv:\n    z = 1 \\\n" + gap + "else:\n    z = 2 \\\n" + gap + "print(z)\n"),
+            (f"block/class/{gt}", 'class K:\n    """doc""" \\\n' + gap + "    a = 1 \\\n" + gap + "\n\nprint(K.a, os.sep)\n"),
+            (f"block/loop/{gt}", "import sys\n\nfor i in sys.argv:\n    import os \\\n" + gap + "    print(os, i)\n"),
+            (f"block/fragment/{gt}", "    x = np.zeros(3) \\\n" + gap + "    print(x)\n"),
+            (f"after-shebang/{gt}", '#!/usr/bin/env python\n"""doc""" \\\n' + gap + "from __future__ import annotations \\\n" + gap + "print(os)\n"),
+        ]
+    # the same with \r\n line endings (format_code is handed such text by API callers; files are read with universal newlines)
+    crlf = [(tag + "/crlf", s.replace("\n", "\r\n")) for tag, s in out
+            if tag.split("/")[0] in ("docstring", "assign", "call", "witness") and (tag.count("/") == 1 or tag.split("/")[1] in ("blank", "spaces", "blanks3"))
+            and (tag.count("/") < 2 or tag.split("/")[2] in ("undefined", "nothing", "plain"))]
+    out += crlf
+    seen, res = set(), []
+    for tag, s in out:
+        if s not in seen and valid(s):
+            seen.add(s)
+            res.append((tag, s))
+    return res
+
+
+LINE_RULES = [           # rules / stages that insert, delete or move whole lines
+    "fixes.add_missing_imports", "fixes.sort_imports", "fixes.remove_unused_imports", "fixes.move_imports_to_toplevel",
+    "fixes.fix_duplicate_imports", "fixes.delete_pointless_statements", "fixes.undefine_unused_variables",
+    "fixes.delete_unused_functions_and_classes", "fixes.fix_too_many_blank_lines", "fixes.remove_dead_ifs",
+    "abstractions.overused_constant", "rmspace.format_str", "fixes.align_variable_names_with_convention",
+    "fixes.breakout_common_code_in_ifs", "fixes.remove_redundant_else",
+]
